@@ -32,9 +32,14 @@ func RaceWorker(o Opts, from, stride int) {
 			break
 		}
 		seed := RunSeed(o.Seed, o.Prop, idx)
-		sc := p.Generate(NewRand(seed), o.Tier)
+		sc, gv := SafeGenerate(p, NewRand(seed), o.Tier)
 		sc.Prop, sc.Seed, sc.Tier = o.Prop, seed, o.Tier
 		fmt.Printf("RUN %d\n", idx)
+		if gv != nil {
+			b, _ := json.Marshal(&FoundViolation{Idx: idx, Scenario: sc, V: *gv})
+			fmt.Printf("VIOL %s\n", b)
+			break
+		}
 		if f := os.Getenv("QV_STAGEB_SCEN"); f != "" {
 			// the scenario being run, for the parent to pick up if the race detector stops this process
 			b, _ := json.Marshal(sc)
